@@ -4,6 +4,7 @@ import (
 	"context"
 	"fmt"
 	"reflect"
+	"sync/atomic"
 )
 
 var (
@@ -14,16 +15,17 @@ var (
 type FieldQuery struct {
 	Name   string
 	Fields []*FieldQuery
-	hash   string
+	hash   atomic.Pointer[string] // filled on first use; a query may be shared by goroutines
 }
 
 func (q *FieldQuery) Hash() string {
-	if q.hash != "" {
-		return q.hash
+	if h := q.hash.Load(); h != nil {
+		return *h
 	}
 	b, _ := Marshal(q)
-	q.hash = string(b)
-	return q.hash
+	h := string(b)
+	q.hash.Store(&h)
+	return h
 }
 
 func (q *FieldQuery) MarshalJSON() ([]byte, error) {
